@@ -42,7 +42,12 @@ R3  length: every value __len__ can return is classified - the sum of the
     unless every store of the count happens under modes in which add() refuses
     (decided by evaluating the path conditions of the stores and of add's
     refusals over the members of the file-mode enum).  APPEND initialises the
-    counter from the same dimension.
+    counter from the same dimension.  A `cached_property` of a record class of the module that copies a number, and a
+    field of such a record, are stored counts as well (kept in that object): fresh only if the add path deletes /
+    overwrites the attribute (`del x.p`, `x.__dict__.pop('p')`, `x.p = …`); the same for a count the locate code (R1c)
+    compares the index with.  Members of record / helper classes (class known from annotations and constructors) are
+    opened by the symbolic engine: a single-expression `@property` is its expression over the same object, an
+    effect-free method is entered like a private helper; a `cached_property` that keeps objects is its expression.
 R4  eviction refusal, per site: every path to the base-class popitem() has seen
     the refusal flag unset and the set flag raises (a refusal raised after the
     base-class popitem() has already removed the entry is reported as such);
@@ -69,6 +74,14 @@ R7  file-link typestate.  The two states in which the constructor leaves a
     undone before the method is left.  A store that was closed is outside the
     histories of the property (it is reopened, not used) and is not a state
     here.
+R8  no half-written addition.  Where the write path (closure of `_write_trajectory`) refuses a missing required
+    value (a raise under `<field>.required` and a None test), the fields before that one are already in the file at the
+    new index: the trajectory dimension has grown though add() fails.  So on the symbolic paths of add (helpers
+    entered) some refusal that depends on `.required` is reached before the counter, the cache or a file is touched,
+    and its condition compares with None a value *read from the trajectory being added* (`getattr(t, n)`,
+    `t._data.get(n)`, `t._data[n]`, in a loop, a comprehension, any() / next() or a helper's verdict).  A refusal that
+    tests something else about the trajectory (key membership: unset fields are present with value None) lets the
+    incomplete trajectory through to the write.
 R5  cache-key discipline: every store of a loaded trajectory into the cache is
     keyed by the requested index; every return of __getitem__ is the cache
     entry of the requested index on a path that established membership (or a
@@ -102,12 +115,14 @@ import copy
 
 from ..algebra import AlgebraError, normal_form
 from ..astutil import (ancestors, arg_or_kw, assigned_names, call_name, calls_in, conjuncts, eval_pred, guards_of,
-                       kwarg, norm, single_def_value, stmt_of, stores_to, walk_no_nested)
+                       kwarg, local_defs, norm, single_def_value, stmt_of, stores_to, walk_no_nested)
 from ..cfg import CFG
 from ..loader import dotted_name
 from ..resolve import closure, resolve_call, resolve_class_call
 
 STORE = 'trajectories/store.py'
+# the classes whose public members are the vocabulary of the rules (never opened by the symbolic engine)
+VOCAB_CLASSES = ('TrajectoryStore',)
 
 # construction sites of NcFiles: function -> (growable?, reason)
 SITE_TABLE = {
@@ -289,12 +304,35 @@ def run(ctx):
             o.rule = 'C07-R2'
             ctx.obligations.append(o)
 
+    # ---- R8 an addition the write path would refuse half-way is refused before anything is written -------
+    rule_prevalidation(ctx, prog, m, add)
+
     # ---- R3 length source ----------------------------------------------------
     rule_len(ctx, prog, m, add)
     opn = m.func('TrajectoryStore._open')
     sets = [st for t, st, how in stores_to(opn.node)
             if isinstance(t, ast.Attribute) and t.attr == '_next_index']
-    ok = len(sets) == 1 and 'traj_dim' in norm(sets[0].value) and 'len(' in norm(sets[0].value) \
+    init_txt = norm(sets[0].value) if sets else ''
+    if len(sets) == 1 and 'traj_dim' not in init_txt:
+        # the value through the members of the file record it is spelt with (`files.ntrajectories`): what is read at
+        # this moment - a cached member is, here, its expression
+        try:
+            hs = Sym(prog, opn).run(lambda n, s=sets[0]: n is s).hits
+        except SymUndecided:
+            hs = []
+        vals = set()
+        for h in hs:
+            for _, v in h.sym.value_states(sets[0].value, h.state.fork()):
+                vals.add(_strip(split_cached(prog, opn, h.sym, v)[0]))
+        if len(vals) == 1:
+            init_txt = next(iter(vals))
+        if vals and not any('traj_dim' in t for t in vals) and any(
+                (isinstance(x, ast.Call) and call_name(x) not in _PURE_FUNCS)
+                or (isinstance(x, ast.Attribute) and hs[0].sym.class_of(x.value) is not None
+                    and _attr_annotation(hs[0].sym.class_of(x.value), x.attr) is not None)
+                for t in vals for x in ast.walk(ast.parse(t, mode='eval'))):
+            ctx.undecided('C07-R3', opn, sorted(vals)[0][:80], 'initial value of the counter on APPEND: a call or a stored field that could not be followed to the trajectory dimension')
+    ok = len(sets) == 1 and 'traj_dim' in init_txt and 'len(' in init_txt \
         and any('APPEND' in norm(x) for x, _, _ in guards_of(sets[0]))
     ctx.ob('C07-R3', opn, 'APPEND starts the counter at the file length', ok,
            norm(sets[0]) if ok else 'the counter is not initialised from the trajectory dimension on APPEND',
@@ -673,6 +711,23 @@ def rule_locate(ctx, prog, m):
                    f'record `{_strip(p.rec)[:70]}` under `size_index is not None` (arithmetic: C09-R3)',
                    line=p.hit.node.lineno, nontrivial=False)
     ctx.floor('C07-R1c', direct, 1, 'paths that read a single file directly')
+    # a count the locate code compares the index with is the file's *current* count: a `cached_property` that copies a
+    # number is a snapshot like the size table (R1) - fresh only if the add path clears it
+    seen = set()
+    add = m.func('TrajectoryStore.add')
+    for p in paths:
+        for e in [f[2] for f in p.state.facts] + [p.rec, p.F]:
+            for cls, meth, node, body in split_cached(prog, load, p.hit.sym, e)[1]:
+                if (cls.name, node.attr) in seen:
+                    continue
+                seen.add((cls.name, node.attr))
+                drops = member_drops(prog, closure(prog, [add]), cls, node.attr)
+                ctx.ob('C07-R1c', load, f'count {cls.name}.{node.attr} used to locate an index is current', bool(drops),
+                       (f'{drops[0][0].qualname} clears the cached value on the add path' if drops else
+                        f'the index is located against `{cls.name}.{node.attr}`, a cached_property: `{_strip(body)[:70]}` is '
+                        f'evaluated at the first read and the number is kept; nothing on the add path clears it, so '
+                        f'trajectories added after that read are reported as out of range once they have left the cache'),
+                       line=meth.node.lineno)
 
     # R5: the loaded trajectory is cached under the requested index
     def is_cache_store(n):
@@ -964,7 +1019,13 @@ def rule_len(ctx, prog, m, add):
     rets = [r for r in sym.returns if r[2] is not None]
     n_file = n_mem = 0
     memo: dict[str, ast.stmt] = {}
+    cached: dict[tuple[str, str], tuple] = {}
     for st, v, stmt in rets:
+        # a `cached_property` in the returned value: one that copies a number is a stored count (below); one that
+        # keeps objects (the dimension objects themselves) is its expression
+        v, counts = split_cached(prog, ln, sym, v)
+        for cls, meth, node, body in counts:
+            cached.setdefault((cls.name, node.attr), (cls, meth, stmt, body))
         txt = _strip(v)
         dims = [x for x in ast.walk(v) if isinstance(x, ast.Attribute) and x.attr == 'traj_dim']
         if dims:
@@ -985,8 +1046,28 @@ def rule_len(ctx, prog, m, add):
             n_mem += 1
         elif isinstance(v, ast.Attribute) and isinstance(v.value, ast.Name) and _base_id(v.value.id) == 'self':
             memo.setdefault(v.attr, stmt)
+        elif isinstance(v, ast.Attribute) and sym.class_of(v.value) is not None \
+                and _attr_annotation(sym.class_of(v.value), v.attr) is not None:
+            # a field of a record of the module (the file information): a stored count kept in that object
+            fcls = sym.class_of(v.value)
+            drops = member_drops(prog, closure(prog, [add], stop={ln.qualname}), fcls, v.attr)
+            n_file += 1
+            ctx.ob('C07-R3', ln, f'stored count {fcls.name}.{v.attr} kept fresh by add', bool(drops),
+                   (f'{drops[0][0].qualname} stores it on the add path' if drops else
+                    f'__len__ answers from the field `{fcls.name}.{v.attr}`, a number stored in the file record, and nothing '
+                    f'on the add path (add → _write_trajectory → _write_data) updates it: len(store) stays at the value '
+                    f'stored when the record was made, whatever is added afterwards'), line=stmt.lineno)
         else:
             ctx.undecided('C07-R3', ln, txt[:80], 'returned length is neither the file dimension, the cache size nor a stored count')
+    for (cname, attr), (cls, meth, stmt, body) in cached.items():
+        drops = member_drops(prog, closure(prog, [add], stop={ln.qualname}), cls, attr)
+        ctx.ob('C07-R3', ln, f'stored count {cname}.{attr} kept fresh by add', bool(drops),
+               (f'{drops[0][0].qualname} clears the cached value on the add path' if drops else
+                f'__len__ answers from `{cname}.{attr}`, a cached_property: `{_strip(body)[:70]}` is evaluated at the first '
+                f'read and the number is stored in the object; nothing on the add path (add → _write_trajectory → '
+                f'_write_data) clears it, although the file grows with every addition: once read, len(store) stays at '
+                f'the old value after further additions, iteration stops early and a range check against it refuses '
+                f'the new indices'), line=meth.node.lineno)
     if not n_file and not memo:
         ctx.undecided('C07-R3', ln, 'file-backed length', 'no return that measures the files')
     ctx.ob('C07-R3', ln, 'in-memory length is the cache size', bool(n_mem),
@@ -1051,6 +1132,226 @@ def rule_len(ctx, prog, m, add):
                + ') and nothing on the add path (add → _write_trajectory → _write_data) updates or clears it: once the '
                'count was stored, len(store) stays at the old value after further additions and iteration stops early',
                line=setters[0][1].lineno)
+
+
+def split_cached(prog, fi, sym, v: ast.expr):
+    """(v', counts): the `cached_property` members read in the symbolic value v.  A member that copies a *number*
+    (annotated int, or computed by len / sum / count) is a stored count, listed as (class, method, node, its
+    expression over the same object).  In v' every such member is replaced by its expression: for one that keeps
+    objects that is what it means (the same objects are read through it every time), for a stored count it is what
+    was copied when it was first read."""
+    counts = []
+
+    class C(ast.NodeTransformer):
+        def visit_Attribute(self, n):
+            self.generic_visit(n)
+            cm = cached_member(prog, fi, n) if isinstance(n.ctx, ast.Load) else None
+            if cm is None:
+                return n
+            cls, meth = cm
+            pv = property_value(cls, n.attr)
+            body = None
+            if pv is not None:
+                obj, r = n.value, pv[1]
+
+                class S(ast.NodeTransformer):
+                    def visit_Name(self, x):
+                        return copy.deepcopy(obj) if x.id == r else x
+                body = sym.open_members(S().visit(copy.deepcopy(pv[0])))
+            ann = norm(meth.node.returns) if meth.node.returns is not None else ''
+            number = ann in ('int', "'int'") or body is None or any(
+                isinstance(x, ast.Call) and (call_name(x) in ('len', 'sum', 'int') or
+                                             (isinstance(x.func, ast.Attribute) and x.func.attr in ('count', '__len__')))
+                or (isinstance(x, ast.Attribute) and x.attr in ('size', 'shape')) for x in ast.walk(body))
+            if number:
+                counts.append((cls, meth, n, body if body is not None else n))
+            return body if body is not None else n
+    return C().visit(copy.deepcopy(v)), counts
+
+
+def member_drops(prog, fns, cls, attr: str):
+    """[(function, node)] where a function of fns (or a method of cls that one of them calls by name) discards or
+    overwrites the instance attribute `attr`: `del x.attr`, `x.attr = …`, `delattr(x, 'attr')`,
+    `x.__dict__.pop('attr', …)` / `del x.__dict__['attr']` / `x.__dict__.clear()`"""
+    fns = list(fns)
+    called = {c.func.attr for fn in fns for c in calls_in(fn.node) if isinstance(c.func, ast.Attribute)}
+    for fn in fns[0].module.functions.values() if fns else []:
+        if fn.cls is cls and fn.name in called and fn not in fns:
+            fns.append(fn)
+
+    def is_dict(e):
+        return isinstance(e, ast.Attribute) and e.attr == '__dict__'
+
+    def key_is(e):
+        return isinstance(e, ast.Constant) and e.value == attr
+    out = []
+    for fn in fns:
+        for n in walk_no_nested(fn.node):
+            if isinstance(n, ast.Attribute) and n.attr == attr and isinstance(n.ctx, (ast.Store, ast.Del)):
+                out.append((fn, n))
+            elif isinstance(n, ast.Subscript) and is_dict(n.value) and key_is(n.slice) \
+                    and isinstance(n.ctx, (ast.Store, ast.Del)):
+                out.append((fn, n))
+            elif isinstance(n, ast.Call):
+                if call_name(n) in ('delattr', 'setattr') and len(n.args) >= 2 and key_is(n.args[1]):
+                    out.append((fn, n))
+                elif isinstance(n.func, ast.Attribute) and is_dict(n.func.value) and (
+                        n.func.attr == 'clear' or (n.func.attr == 'pop' and n.args and key_is(n.args[0]))):
+                    out.append((fn, n))
+    return out
+
+
+# ---- R8: no half-written addition ----------------------------------------------------------------------------------
+
+def _none_tests(e: ast.AST):
+    """the operands X of every `X is None` / `X == None` (either polarity, either side) inside e"""
+    out = []
+    for x in ast.walk(e):
+        if isinstance(x, ast.Compare) and len(x.ops) == 1 and isinstance(x.ops[0], (ast.Is, ast.IsNot, ast.Eq, ast.NotEq)):
+            a, b = x.left, x.comparators[0]
+            if isinstance(b, ast.Constant) and b.value is None:
+                out.append(a)
+            elif isinstance(a, ast.Constant) and a.value is None:
+                out.append(b)
+    return out
+
+
+def _rooted(e: ast.AST, obj: str) -> bool:
+    r = chain_root(e)
+    return r is not None and _base_id(r.id) == obj
+
+
+def _reads_object(e: ast.AST, obj: str) -> bool:
+    """e is a value taken from the object `obj` by attribute, element, getattr() or a mapping read on its state"""
+    if isinstance(e, ast.Call):
+        if call_name(e) == 'getattr' and e.args:
+            return _rooted(e.args[0], obj)
+        if isinstance(e.func, ast.Attribute) and e.func.attr in ('get', '__getitem__', '__getattribute__'):
+            return _rooted(e.func.value, obj)
+        return False
+    return isinstance(e, (ast.Attribute, ast.Subscript)) and _rooted(e, obj)
+
+
+def _reads_field_by_name(e: ast.AST, obj: str) -> bool:
+    """e is the value of a field of `obj` selected by a *variable* name - `getattr(obj, n[, d])`, `obj.<state>.get(n)`,
+    `obj.<state>[n]`, `obj[n]` -: the value of whichever field a walk over the field definitions is looking at (a
+    fixed attribute, `obj.flight_id`, is one particular field)"""
+    def var(k):
+        return not isinstance(k, (ast.Constant, ast.Slice))
+    if isinstance(e, ast.Call):
+        if call_name(e) == 'getattr' and len(e.args) >= 2:
+            return _rooted(e.args[0], obj) and var(e.args[1])
+        if isinstance(e.func, ast.Attribute) and e.func.attr in ('get', '__getitem__', '__getattribute__') and e.args:
+            return _rooted(e.func.value, obj) and var(e.args[0])
+        return False
+    return isinstance(e, ast.Subscript) and _rooted(e.value, obj) and var(e.slice)
+
+
+def write_path_value_refusals(prog, m):
+    """[(function, raise)] in the closure of the write of one trajectory that refuse a *missing required value*: a raise
+    control-dependent on a test of `<field>.required` and on a None test"""
+    wt = m.functions.get('TrajectoryStore._write_trajectory')
+    out = []
+    for fn in (closure(prog, [wt]) if wt is not None else []):
+        for n in walk_no_nested(fn.node):
+            if isinstance(n, ast.Raise):
+                gs = [x for x, _, _ in guards_of(n)]
+                if any(isinstance(y, ast.Attribute) and y.attr == 'required' for x in gs for y in ast.walk(x)) \
+                        and any(_none_tests(x) for x in gs):
+                    out.append((fn, n))
+    return out
+
+
+def rule_prevalidation(ctx, prog, m, add):
+    """C07-R8: the write path refuses a trajectory with a missing required value *after* the variables before that
+    field have been written at the new index - the trajectory dimension of the file has grown, the counter is put
+    back: the file holds one trajectory more than were added.  So add() must have refused that trajectory before it
+    changes anything, by the same test: required, and the value the write path will read is None."""
+    late = write_path_value_refusals(prog, m)
+    if not late:
+        ctx.note('C07-R8: the write path refuses no missing required value (nothing to decide before the write)')
+        return
+    if len(add.params) < 2:
+        ctx.undecided('C07-R8', add, 'add(trajectory)', 'cannot tell the parameter that is the trajectory being added')
+    traj = add.params[1]
+    wt = m.func('TrajectoryStore._write_trajectory')
+    wpath = {f.qualname for f in closure(prog, [wt])}
+    # everything add calls after its first change is opaque here: the question is what happens before
+    first = next((i for i, b in enumerate(add.node.body)
+                  if any(_counter_store(x) or _is_cache_insert(x) for x in ast.walk(b))), len(add.node.body))
+    before = [c for b in add.node.body[:first] for c in calls_in(b)]
+    pre_fns = closure(prog, [f for f in (resolve_call(prog, add, c) for c in before) if f is not None and f != add])
+    try:
+        sym = Sym(prog, add)
+        sym.enter_methods = True
+        sym.opaque |= {f.name for f in closure(prog, [add]) if f not in pre_fns and f != add}
+        sym.run()
+    except SymUndecided as e:
+        ctx.undecided('C07-R8', add, 'paths of add', str(e))
+    judged = []
+    for st, exc, stmt, sub in sym.raises:
+        if f'{sym.recv}.{COUNTER}' in st.env or any(k in ('store', 'del') for k, *_ in st.trace):
+            continue        # not before the first change
+        conds = [e for _, _, e in st.facts
+                 if any(isinstance(y, ast.Attribute) and y.attr == 'required' for y in ast.walk(e))]
+        if conds:
+            judged.append((st, stmt, sub, conds))
+    fn0, r0 = late[0]
+    if not judged:
+        pre_nodes = [(add, b) for b in add.node.body[:first]] + [(f, f.node) for f in pre_fns if f.qualname not in wpath]
+        elsewhere = [f for f, nd in pre_nodes
+                     if any(isinstance(y, ast.Attribute) and y.attr == 'required' for y in walk_no_nested(nd))]
+        if elsewhere:
+            ctx.undecided('C07-R8', add, f'{elsewhere[0].qualname}',
+                          'reads `.required` on the way to the write, but no refusal that depends on it could be followed')
+        ctx.ob('C07-R8', add, 'a missing required value is refused before the store is changed', False,
+               f'{fn0.qualname} (line {r0.lineno}) refuses a missing required value only while the trajectory is being '
+               f'written: the variables before that field are already stored at the new index, so the trajectory dimension '
+               f'has grown although add() fails and puts the counter back - len(store) and iteration count one more than '
+               f'the successful additions; nothing in add() refuses such a trajectory before the first change',
+               line=add.node.lineno)
+        return
+    own = {t.attr for t, _, _ in stores_to(add.node) if isinstance(t, ast.Attribute) and _is_name(t.value, add.params[0])} \
+        | {CACHE_ATTR}
+    for st, stmt, sub, conds in judged:
+        facts = [e for _, _, e in st.facts]
+        # the judgement is about the trajectory alone: made only under a condition on the store's state, it is skipped
+        # for the additions made while that condition is false
+        if sub.recv is not None:
+            for gx, pol, _ in guards_of(stmt):
+                attrs = {x.attr for x in ast.walk(gx) if isinstance(x, ast.Attribute) and _is_name(x.value, sub.recv)}
+                if attrs & own:
+                    ctx.ob('C07-R8', sub.fi, 'a missing required value is refused whatever the state of the store', False,
+                           f'the refusal is decided only under `{"" if pol else "not "}{norm(gx)[:60]}`, a condition on state that '
+                           f'add() itself changes ({", ".join(sorted(attrs & own))}): the additions made while it does not hold '
+                           f'are not judged, an incomplete trajectory among them is half-written by {fn0.qualname} '
+                           f'(line {r0.lineno}) and the file then holds one trajectory more than were added', line=stmt.lineno)
+                elif attrs:
+                    ctx.undecided('C07-R8', sub.fi, norm(gx)[:80],
+                                  'the required-value refusal is conditional on state of the store')
+        tested = [x for e in facts for x in _none_tests(e) if _reads_field_by_name(x, traj)]
+        ok = bool(tested)
+        if not ok:
+            # what is tested instead about the trajectory
+            other = [x for e in conds + facts for x in ast.walk(e)
+                     if isinstance(x, ast.Compare) and any(isinstance(o, (ast.In, ast.NotIn)) for o in x.ops)
+                     and any(_reads_object(c, traj) or _is_name(c, traj) for c in x.comparators)]
+            truthy = [e for e in facts if not _none_tests(e) and _reads_field_by_name(e, traj)]
+            if not other and truthy:
+                ctx.undecided('C07-R8', sub.fi, _strip(truthy[0])[:80],
+                              'the required-value refusal tests the truth value of the field, not `is None`')
+            what = (f'`{_strip(other[0])[:80]}` - whether the name is a key of the trajectory\'s data, not whether its '
+                    f'value is None (a field that was never set is present with the value None)') if other else \
+                (f'`{_strip(conds[0])[:90]}`, which does not compare the value of the field with None')
+        ctx.ob('C07-R8', sub.fi, 'a missing required value is refused before the store is changed', ok,
+               (f'refused under `{_strip(tested[0])[:60]} is None` for a required field, before the counter, the cache '
+                f'or a file is touched') if ok else
+               (f'the refusal of a trajectory with a missing required value tests {what}: such a trajectory passes, and '
+                f'{fn0.qualname} (line {r0.lineno}) raises on `None` only after the variables before that field were '
+                f'written at the new index - the trajectory dimension has grown although add() failed and put the '
+                f'counter back, so len(store) and iteration count one more than the successful additions'),
+               line=stmt.lineno)
+    ctx.floor('C07-R8', len(judged), 1, 'refusals of a missing required value before the first change')
 
 
 def _decidable(table, fact) -> bool:
@@ -1361,7 +1662,7 @@ FLAG = 'exception_on_eviction'
 def property_value(cls, attr: str):
     """(return expression, receiver name) of `cls.<attr>` when that is a @property (found through the MRO) whose body is
     a single `return <expression>` - i.e. a name for a condition; None otherwise"""
-    fi = cls.find_method(attr) if cls is not None else None
+    fi = find_member(cls, attr)
     if fi is None or not any(d.split('.')[-1] in ('property', 'cached_property') for d in fi.decorators()):
         return None
     body = [b for b in fi.node.body if not (isinstance(b, ast.Expr) and isinstance(b.value, ast.Constant)
@@ -2426,6 +2727,225 @@ def _noneness(e: ast.expr):
     return None
 
 
+# ---- classes of symbolic values: members of record / helper classes of the module are opened ---------------------------
+#
+# A value over the function's inputs (`self._nc[fs]`, `self._open_nc_file(p)`, `Cls(...)`) has a class when the
+# annotations say so: attribute annotations (`self._nc: dict[str, NcFiles]`, dataclass fields), element types of
+# annotated containers, constructor calls, return annotations of methods.  Of a class *other than the one the rules
+# speak about* (the class of the analysed function) a read-only single-expression `@property` is its expression over
+# the same object, and an effect-free method is entered like a private helper.  A `cached_property` is not opened: it
+# is a stored copy of its expression (see `cached_member`).
+
+_MAP_ANN = {'dict', 'Dict', 'Mapping', 'MutableMapping', 'defaultdict', 'DefaultDict', 'OrderedDict'}
+_SEQ_ANN = {'list', 'List', 'Sequence', 'MutableSequence', 'set', 'Set', 'frozenset', 'FrozenSet', 'Iterable', 'Iterator',
+            'Collection', 'deque', 'Deque'}
+
+
+def _parse_ann(ann):
+    if isinstance(ann, ast.Constant) and isinstance(ann.value, str):
+        try:
+            return ast.parse(ann.value, mode='eval').body
+        except SyntaxError:
+            return None
+    return ann
+
+
+def _ann_to_class(prog, m, ann):
+    """class an annotation names (Optional / `| None` looked through; a class nested in a class of the module may be
+    named by its last component inside that class)"""
+    ann = _parse_ann(ann)
+    if ann is None:
+        return None
+    if isinstance(ann, ast.BinOp) and isinstance(ann.op, ast.BitOr):
+        return _ann_to_class(prog, m, ann.left) or _ann_to_class(prog, m, ann.right)
+    if isinstance(ann, ast.Subscript):
+        if (dotted_name(ann.value) or '').split('.')[-1] == 'Optional':
+            return _ann_to_class(prog, m, ann.slice)
+        return None
+    c = prog.resolve_class_expr(m, ann)
+    if c is None and isinstance(ann, ast.Name):
+        cands = [k for n, k in m.classes.items() if n.split('.')[-1] == ann.id]
+        c = cands[0] if len(cands) == 1 else None
+    return c
+
+
+def _ann_elem(ann):
+    """annotation of the elements (values, for a mapping) of a container annotation, or None"""
+    ann = _parse_ann(ann)
+    if isinstance(ann, ast.BinOp) and isinstance(ann.op, ast.BitOr):
+        return _ann_elem(ann.left) or _ann_elem(ann.right)
+    if not isinstance(ann, ast.Subscript):
+        return None
+    base = (dotted_name(ann.value) or '').split('.')[-1]
+    if base == 'Optional':
+        return _ann_elem(ann.slice)
+    if base in _MAP_ANN:
+        return ann.slice.elts[-1] if isinstance(ann.slice, ast.Tuple) and len(ann.slice.elts) == 2 else None
+    if base in _SEQ_ANN:
+        return ann.slice if not isinstance(ann.slice, ast.Tuple) else None
+    if base in ('tuple', 'Tuple') and isinstance(ann.slice, ast.Tuple) and len(ann.slice.elts) == 2 \
+            and isinstance(ann.slice.elts[1], ast.Constant) and ann.slice.elts[1].value is Ellipsis:
+        return ann.slice.elts[0]
+    return None
+
+
+def _attr_annotation(owner, attr: str):
+    """(annotation, module) of `<object of owner>.<attr>`: a class-level field, or `self.<attr>: T = …` in a method"""
+    for c in owner.mro():
+        flds = c.annotated_fields()
+        if attr in flds:
+            return flds[attr], c.module
+    for c in owner.mro():
+        for meth in c.methods.values():
+            if not meth.params:
+                continue
+            for n in walk_no_nested(meth.node):
+                if isinstance(n, ast.AnnAssign) and isinstance(n.target, ast.Attribute) and n.target.attr == attr \
+                        and _is_name(n.target.value, meth.params[0]):
+                    return n.annotation, c.module
+    return None
+
+
+def _value_annotation(prog, fi, e: ast.AST, depth: int = 0):
+    """(annotation, module) of a symbolic value of function fi, when its declaration can be found"""
+    if depth > 6:
+        return None
+    if isinstance(e, ast.Attribute):
+        owner = value_class(prog, fi, e.value, depth + 1)
+        if owner is None:
+            return None
+        a = _attr_annotation(owner, e.attr)
+        if a is not None:
+            return a
+        meth = find_member(owner, e.attr)
+        if meth is not None and meth.node.returns is not None \
+                and any(d.split('.')[-1] in ('property', 'cached_property') for d in meth.decorators()):
+            return meth.node.returns, meth.module
+        return None
+    if isinstance(e, ast.Subscript):
+        a = _value_annotation(prog, fi, e.value, depth + 1)
+        if a is not None and not isinstance(e.slice, ast.Slice):
+            el = _ann_elem(a[0])
+            return (el, a[1]) if el is not None else None
+        return None
+    if isinstance(e, ast.Name):
+        args = fi.node.args
+        for arg in args.posonlyargs + args.args + args.kwonlyargs:
+            if arg.arg == _base_id(e.id) and arg.annotation is not None:
+                return arg.annotation, fi.module
+        return None
+    if isinstance(e, ast.Call):
+        if isinstance(e.func, ast.Attribute):
+            owner = value_class(prog, fi, e.func.value, depth + 1)
+            meth = find_member(owner, e.func.attr)
+            if meth is not None and meth.node.returns is not None:
+                return meth.node.returns, meth.module
+            # the values of an annotated mapping: `d.get(k)`, `d.pop(k)`, `d.setdefault(k, v)`, `next(iter(d.values()))`
+            if e.func.attr in ('get', 'pop', 'setdefault'):
+                a = _value_annotation(prog, fi, e.func.value, depth + 1)
+                if a is not None and (dotted_name(getattr(_parse_ann(a[0]), 'value', None)) or '').split('.')[-1] in _MAP_ANN:
+                    el = _ann_elem(a[0])
+                    return (el, a[1]) if el is not None else None
+        return None
+    return None
+
+
+def value_class(prog, fi, e: ast.AST, depth: int = 0):
+    """class of the object a symbolic value of function fi denotes, as far as annotations and constructors tell"""
+    if depth > 6:
+        return None
+    if isinstance(e, ast.Name):
+        if fi.cls is not None and fi.params and _base_id(e.id) == fi.params[0] \
+                and not any(d.split('.')[-1] == 'staticmethod' for d in fi.decorators()):
+            return fi.cls if not any(d.split('.')[-1] == 'classmethod' for d in fi.decorators()) else None
+        # a local (also one whose value the path no longer knows: `name@line`): the class all its definitions agree on
+        ds = local_defs(fi.node, _base_id(e.id))
+        if ds and not any(_base_id(e.id) == p for p in fi.params):
+            found = {}
+            for d in ds:
+                c = None
+                if isinstance(d, ast.AnnAssign) and isinstance(d.target, ast.Name):
+                    c = _ann_to_class(prog, fi.module, d.annotation)
+                if c is None and isinstance(d, (ast.Assign, ast.AnnAssign)) and d.value is not None \
+                        and all(isinstance(t, ast.Name) for t in (d.targets if isinstance(d, ast.Assign) else [d.target])):
+                    c = value_class(prog, fi, d.value, depth + 1)
+                elif isinstance(d, (ast.For, ast.AsyncFor)) and isinstance(d.target, ast.Name):
+                    a = _value_annotation(prog, fi, d.iter, depth + 1)
+                    el = _ann_elem(a[0]) if a is not None else None
+                    c = _ann_to_class(prog, a[1], el) if el is not None else None
+                found[id(c)] = c
+            return next(iter(found.values())) if len(found) == 1 else None
+    if isinstance(e, ast.BoolOp):
+        cs = {id(k): k for k in (value_class(prog, fi, x, depth + 1) for x in e.values)}
+        return next(iter(cs.values())) if len(cs) == 1 else None
+    if isinstance(e, ast.Call):
+        c = prog.resolve_class_expr(fi.module, e.func)
+        if c is None and isinstance(e.func, ast.Attribute):
+            # a class nested in the receiver's class: `self.NcFiles(...)`
+            owner = value_class(prog, fi, e.func.value, depth + 1)
+            if owner is not None and find_member(owner, e.func.attr) is None:
+                for c2 in owner.mro():
+                    c = c or c2.module.classes.get(f'{c2.name}.{e.func.attr}')
+        if c is not None:
+            return c
+    a = _value_annotation(prog, fi, e, depth)
+    return _ann_to_class(prog, a[1], a[0]) if a is not None else None
+
+
+def find_member(cls, name: str):
+    """the method `name` of cls through the MRO; also for a class nested in another class (whose methods the loader
+    indexes under the qualified name only)"""
+    if cls is None:
+        return None
+    for c in cls.mro():
+        if name in c.methods:
+            return c.methods[name]
+        for key, ci in c.module.classes.items():
+            if ci is c:
+                fi = c.module.functions.get(f'{key}.{name}')
+                if fi is not None and fi.cls is c:
+                    return fi
+    return None
+
+
+def _member_kind(cls, attr: str) -> str | None:
+    """'property' / 'cached_property' when `cls.<attr>` is one (through the MRO)"""
+    meth = find_member(cls, attr)
+    if meth is None:
+        return None
+    for d in meth.decorators():
+        k = d.split('.')[-1].split('(')[0]
+        if k in ('property', 'cached_property'):
+            return k
+    return None
+
+
+def cached_member(prog, fi, e: ast.AST):
+    """(class, method) when the symbolic value e reads a `cached_property`: the value computed at the first read is
+    stored in the object and returned ever after"""
+    if isinstance(e, ast.Attribute):
+        cls = value_class(prog, fi, e.value)
+        if _member_kind(cls, e.attr) == 'cached_property':
+            return cls, find_member(cls, e.attr)
+    return None
+
+
+def _effect_free(prog, fn) -> bool:
+    """a method that only computes: no stores but to its own local names, no deletions, no calls but of pure builtins /
+    mapping reads, no generators"""
+    for n in walk_no_nested(fn.node):
+        if isinstance(n, (ast.Attribute, ast.Subscript)) and isinstance(n.ctx, (ast.Store, ast.Del)):
+            return False
+        if isinstance(n, (ast.Global, ast.Nonlocal, ast.Yield, ast.YieldFrom, ast.Await, ast.With, ast.AsyncWith)):
+            return False
+        if isinstance(n, ast.Call):
+            name = call_name(n)
+            if not (name in _PURE_FUNCS or any(name == r or name.startswith(r + '.') for r in _PURE_ROOTS)
+                    or (isinstance(n.func, ast.Attribute) and n.func.attr in _PURE_METHODS)):
+                return False
+    return True
+
+
 class SymState:
     __slots__ = ('env', 'facts', 'epoch', 'clob', 'trace')
 
@@ -2475,6 +2995,11 @@ class Sym:
         self.recv = None
         if fi.cls is not None and fi.params and not any(d.split('.')[-1] == 'staticmethod' for d in fi.decorators()):
             self.recv = fi.params[0]
+        self.rootfi = parent.rootfi if parent else fi       # symbolic values are expressions over its inputs
+        # private methods called on the same receiver are entered only on request (the loader has inlined the helpers
+        # that were extracted from the reference function; entering all the others costs minutes)
+        self.enter_methods = parent.enter_methods if parent else False
+        self._cls_memo: dict = parent._cls_memo if parent else {}
         self._locals = set(fi.params) | {x.id for x in walk_no_nested(fi.node) if isinstance(x, ast.Name)
                                          and isinstance(x.ctx, (ast.Store, ast.Del))}
         if parent is not None:
@@ -2588,7 +3113,55 @@ class Sym:
                 self.bound.pop()
                 return n
 
-        return T().visit(copy.deepcopy(e))
+        return self.open_members(T().visit(copy.deepcopy(e)))
+
+    # ---- members of other classes of the module ----------------------------------------------------------
+    def _member_names(self) -> set[str]:
+        memo = self._cls_memo
+        if '#props' not in memo:
+            memo['#props'] = {meth.name for meth in self.rootfi.module.functions.values() if meth.cls is not None
+                              and any(d.split('.')[-1] == 'property' for d in meth.decorators())}
+        return memo['#props']
+
+    def class_of(self, v: ast.AST):
+        """class of a symbolic value, unless that is the class the rules speak about (whose members are the rules'
+        vocabulary and stay as they are written)"""
+        key = norm(v)
+        if key not in self._cls_memo:
+            try:
+                c = value_class(self.prog, self.rootfi, v)
+            except Exception:
+                c = None
+            if c is not None and (c is self.rootfi.cls or c.name in VOCAB_CLASSES):
+                c = None
+            self._cls_memo[key] = c
+        return self._cls_memo[key]
+
+    def open_members(self, e: ast.expr, depth: int = 0) -> ast.expr:
+        """reads of single-expression `@property` members of record / helper classes are the property's expression
+        over the same object"""
+        props = self._member_names()
+        if depth > 3 or not props or not any(isinstance(x, ast.Attribute) and x.attr in props for x in ast.walk(e)):
+            return e
+        sym = self
+
+        class O(ast.NodeTransformer):
+            def visit_Attribute(self, n):
+                self.generic_visit(n)
+                if n.attr in props and isinstance(n.ctx, ast.Load):
+                    cls = sym.class_of(n.value)
+                    if cls is not None and _member_kind(cls, n.attr) == 'property':
+                        pv = property_value(cls, n.attr)
+                        if pv is not None:
+                            body, r = copy.deepcopy(pv[0]), pv[1]
+                            obj = n.value
+
+                            class S(ast.NodeTransformer):
+                                def visit_Name(self, x):
+                                    return copy.deepcopy(obj) if x.id == r else x
+                            return sym.open_members(S().visit(body), depth + 1)
+                return n
+        return O().visit(e)
 
     def truth(self, e: ast.expr, st: SymState):
         """static truth value of an (already substituted) test on this path: True / False / None"""
@@ -2708,18 +3281,28 @@ class Sym:
                     st.env[r.id] = self._fresh(r.id, c)
 
     # ---- calls of helpers of the same module ------------------------------------------------------------
-    def _summarisable(self, c: ast.Call):
+    def _summarisable(self, c: ast.Call, st: SymState | None = None):
         if self.depth >= 2:
             return None
         try:
             callee = resolve_call(self.prog, self.fi, c)
         except Exception:
             return None
+        query = False
+        if isinstance(c.func, ast.Attribute) and st is not None and (callee is None or callee.cls is not None):
+            # a method of a record / helper class of the module (the receiver's class is known from annotations):
+            # entered when it only computes - a named query on that object
+            cls = self.class_of(self.ev(c.func.value, st.fork()))
+            meth = find_member(cls, c.func.attr)
+            if meth is not None and (callee is None or callee == meth) and not meth.name.startswith('__') \
+                    and _effect_free(self.prog, meth):
+                callee, query = meth, True
         if callee is None or callee.module is not self.fi.module or callee == self.fi or callee.name in self.opaque:
             return None
         # only private helpers and nested functions are looked through: the public methods are the vocabulary
         # in which the rules speak (`TrajectoryStore.open(...)`, `len(store)`, `store[i]`)
-        if not ((callee.name.startswith('_') and not callee.name.startswith('__')) or '<locals>' in callee.qualname):
+        if not ((callee.name.startswith('_') and not callee.name.startswith('__')) or '<locals>' in callee.qualname
+                or query):
             return None
         if any(isinstance(x, (ast.Yield, ast.YieldFrom, ast.Await)) for x in walk_no_nested(callee.node)):
             return None
@@ -2774,6 +3357,8 @@ class Sym:
             bind[a.kwarg.arg] = ast.Dict(keys=[ast.Constant(value=k) for k, _ in extra], values=[v for _, v in extra])
         for p in names:
             if p not in bind:
+                if same_recv and p == self.recv and self.enter_methods:
+                    continue            # the helper runs on the same object under the same name
                 if p not in defaults:
                     return None
                 bind[p] = copy.deepcopy(defaults[p])
@@ -2839,7 +3424,7 @@ class Sym:
                     out += self.value_states(branch, st2)
             return out
         if isinstance(e, ast.Call):
-            callee = self._summarisable(e)
+            callee = self._summarisable(e, st)
             if callee is not None:
                 for x in list(e.args) + [k.value for k in e.keywords]:
                     self.effects(x, st)
